@@ -643,6 +643,34 @@ class SolutionLemma(Contract):
         )
 
 
+class SequentialClosedFormLemma(Contract):
+    """`bateman_rate_equation`, `bateman_initial_condition` (Lean 4 + Mathlib, re-checked every run): the closed form
+    A[i][j] = prod_{m<j} k_m / prod_{m<=j, m!=i} (k_m - k_i) (i <= j) that `a_matrix_sequential` evaluates satisfies the
+    rate equations of the chain and the initial condition e_1 for EVERY number of compartments and pairwise distinct
+    rates - the identities discharged on the real code for chains of up to 5 (6) compartments."""
+
+    prop = "C04"
+    name = "SequentialClosedFormLemma"
+    lemma_files = (__import__("pathlib").Path(__file__).resolve().parent.parent / "lemmas" / "Bateman.lean",)
+    target = None
+    strength = "U"
+    trusted = ("Lean 4.33 kernel and Mathlib (Finset products, Lagrange interpolation); axioms propext, Classical.choice, Quot.sound",)
+
+    def cases(self, tier):
+        return iter(())
+
+    def static_obligations(self, tier):
+        from pyvc.lean import check_lemmas
+
+        return check_lemmas(
+            self.lemma_files[0],
+            {
+                "PyVC.bateman_rate_equation": "lemma_sequential_closed_form_satisfies_the_rate_equations_for_all_n",
+                "PyVC.bateman_initial_condition": "lemma_sequential_closed_form_starts_in_the_first_compartment_for_all_n",
+            },
+        )
+
+
 from contracts.common import FunctionAxiomsBase  # noqa: E402
 
 
